@@ -146,8 +146,12 @@ fn plan16(seed: u64, run: u64, tier: Tier) -> Plan16 {
         o.comments = rng.chance(1, 2);
         o.crlf = rng.chance(1, 8);
         o.unicode = rng.chance(1, 4);
-        let kind = rng.weighted(&[8, 3, 2, 2]);
+        let kind = rng.weighted(&[8, 3, 2, 2, 3]);
         let (kind_s, mut text) = match kind {
+            4 => {
+                let n = rng.range(1, 6);
+                ("zoo", jsgen::gen_zoo(&mut rng, n))
+            }
             0 => ("modified", jsgen::gen_program(&mut rng, o).0),
             1 => ("plain", jsgen::gen_plain(&mut rng, o)),
             2 => {
